@@ -121,7 +121,6 @@ def compute_air_connection(matrix: jax.Array) -> jax.Array:
         jax.Array: Boolean array marking air regions connected to boundaries.
     """
     inv_matrix = jnp.invert(matrix)
-    n = max([matrix.shape[0], matrix.shape[1], matrix.shape[2]])
     n4_kernel = jnp.asarray(
         [
             [0, 1, 0],
@@ -148,7 +147,17 @@ def compute_air_connection(matrix: jax.Array) -> jax.Array:
         )
         return arr
 
-    connected = jax.lax.fori_loop(0, n, _body_fn, connected)
+    # iterate the dilation to its fixed point: the geodesic distance inside a winding channel can
+    # exceed any bound derived from the array shape
+    def _cond_fn(state):
+        prev, cur = state
+        return jnp.any(prev != cur)
+
+    def _step_fn(state):
+        _, cur = state
+        return cur, _body_fn(0, cur)
+
+    _, connected = jax.lax.while_loop(_cond_fn, _step_fn, (connected, _body_fn(0, connected)))
 
     return connected
 
@@ -172,7 +181,6 @@ def compute_polymer_connection(
     Returns:
         jax.Array: Boolean array marking connected polymer regions.
     """
-    n = max([matrix.shape[0], matrix.shape[1], matrix.shape[2]])
     padded = False
     if matrix.shape[2] == 1:
         padded = True
@@ -201,7 +209,17 @@ def compute_polymer_connection(
         )
         return arr
 
-    connected = jax.lax.fori_loop(0, n, _body_fn, connected)
+    # iterate the dilation to its fixed point: the geodesic distance along a winding structure can
+    # exceed any bound derived from the array shape
+    def _cond_fn(state):
+        prev, cur = state
+        return jnp.any(prev != cur)
+
+    def _step_fn(state):
+        _, cur = state
+        return cur, _body_fn(0, cur)
+
+    _, connected = jax.lax.while_loop(_cond_fn, _step_fn, (connected, _body_fn(0, connected)))
 
     if padded:
         connected = connected[..., 1:2]
